@@ -481,5 +481,5 @@ def run(ctx):
 
 def replay(ctx, case):
     c = dec(case["case"])
-    _, fails = check_case(c)
+    _, fails = par.guarded(check_case)(c)
     return sorted(set(k for k, _ in fails)) or None
